@@ -81,8 +81,7 @@ CANON = {
     'q': {'ind': 0, 'nosp': False, 'bl': '> ', 'gap': 1},
     'ul': {'gap': 1, 'loose': False}, 'ol': {'gap': 1, 'loose': False},
     'li': {'ind': 0, 'pad': 1, 'blankfirst': False, 'trailsp': 0},
-    'tb': {'gap': 1, 'lead': True, 'trailp': True, 'padl': 1, 'padr': 1, 'dash': 3, 'lcolon': False,
-           'nf': False},
+    'tb': {'gap': 1, 'lead': True, 'trailp': True, 'padl': 1, 'padr': 1, 'dash': 3, 'lcolon': False},
     'html': {'gap': 1, 'ind': 0},
     'defs': {'gap': 1},
     'def': {'ind': 0, 'sp': ' ', 'tsp': ' '},
@@ -193,13 +192,15 @@ def s_block(b):
     if k == 'ic':
         return [(('    ' + l) if l.strip() or a.get('wsl') else '', 0) for l in a['lines']]
     if k == 'q':
-        pre = ' ' * a.get('ind', 0) + '>' + ('' if a.get('nosp') else ' ')
+        pre = ' ' * a.get('ind', 0) + '> '
         out = []
         for l, lz in s_blocks(c):
             if lz > 0:
                 out.append((l, lz - 1))
             elif l.strip() == '' and not l:
                 out.append((' ' * a.get('ind', 0) + a.get('bl', '> '), 0))
+            elif a.get('nosp') and not l.startswith(' '):
+                out.append((pre[:-1] + l, 0))       # '>' without the optional blank
             else:
                 out.append((pre + l, 0))
         return out or [(' ' * a.get('ind', 0) + a.get('bl', '> '), 0)]
@@ -243,6 +244,8 @@ def s_item(it):
         if i and lz > 0:
             out.append((l, lz - 1))
         elif i == 0:
+            if not (c and c[0][0] == 'ic'):
+                l = l.lstrip(' ')       # own indentation would add to the marker padding
             out.append(((first + l) if l.strip() else lead + ' ' * a.get('trailsp', 0), 0))
         else:
             out.append(((rest + l) if l else '', 0))
@@ -288,7 +291,7 @@ def s_table(b):
         line = lead + '|'.join(pl + (t or ' ') + pr for t in r) + trail
         if '|' not in line:
             line = '|' + line
-        out.append(line)
+        out.append(line.lstrip(' '))
         if ri == 0:
             seps = []
             for i in range(len(al)):
@@ -299,7 +302,7 @@ def s_table(b):
             line = lead + '|'.join(pl + s + pr for s in seps) + trail
             if '|' not in line:
                 line = '|' + line
-            out.append(line)
+            out.append(line.lstrip(' '))
     return out
 
 
@@ -322,9 +325,11 @@ class Gen:
         self.spell = mode in ('free', 'reflowfree')      # non-canonical spellings allowed
         self.size = size
         # delicate constructs (known-delicate classes, inside the quantifier): only in 'free'
-        self.delicate = (self.r.random() < 0.08) if delicate is None else delicate
+        self.delicate = (self.r.random() < 0.03) if delicate is None else delicate
         self.delicate = self.delicate and self.free
         self.used = []
+        self._in_del = 0
+        self._inq = 0
 
     # ---- helpers
     def ch(self, seq):
@@ -353,8 +358,6 @@ class Gen:
             x = r.random()
             if x < 0.55 or depth >= 3:
                 node = N('t', s=self.word())
-                if cell:
-                    node[1]['s'] = node[1]['s'].replace('|', '/')
             elif x < 0.62:
                 node = N('em', self.inl(depth + 1, r.choice([1, 1, 2, 3]), nolink, nobreak, cell),
                          d=self.ch('*_'))
@@ -362,10 +365,12 @@ class Gen:
                 node = N('st', self.inl(depth + 1, r.choice([1, 1, 2, 3]), nolink, nobreak, cell),
                          d=self.ch(['**', '__']))
             elif x < 0.71:
-                if self.reflow:
+                if self.reflow or self._in_del:
                     node = N('t', s=self.word())
                 else:
+                    self._in_del += 1
                     node = N('del', self.inl(depth + 1, r.choice([1, 2]), nolink, nobreak, cell), d='~~')
+                    self._in_del -= 1
             elif x < 0.78:
                 node = self.code(cell)
             elif x < 0.88 and not nolink:
@@ -374,7 +379,7 @@ class Gen:
                 node = self.link(depth, nobreak, cell, img=True, nolink=nolink)
             elif x < 0.94:
                 node = N('auto', s=self.ch(AUTOS))
-            elif x < 0.96 and not self.reflow:
+            elif x < 0.96 and not self.reflow and not (self.normal and (not out or out[-1][0] == 'br')):
                 node = N('hi', s=self.ch(HTMLS))
             elif x < 0.98 and not self.reflow:
                 node = N('esc', s=self.ch(ESC))
@@ -382,6 +387,8 @@ class Gen:
                     node = N('t', s='a')
             else:
                 node = N('t', s=self.word())
+            if cell and node[0] == 't':
+                node[1]['s'] = node[1]['s'].replace('|', '/')
             if out and not self.reflow and self.p(0.06) and node[0] in ('t', 'em', 'st', 'code') \
                     and out[-1][0] in ('t', 'em', 'st', 'code'):
                 node[1]['glue'] = True
@@ -399,6 +406,8 @@ class Gen:
         r = self.r
         n = r.choice([1, 1, 1, 2, 2, 3])
         if self.reflow:
+            if n == 3 and self.p(0.9):
+                n = 2       # a 3-backtick span moved to a line start reads as a fence: keep rare
             s = ' '.join(self.ch(RWORDS) for _ in range(r.choice([1, 1, 2, 3, 5])))
             if n > 1 and self.p(0.5):
                 s = s + '`' * (n - 1) + 'q'
@@ -419,13 +428,17 @@ class Gen:
     def link(self, depth, nobreak, cell, img, nolink=False):
         r = self.r
         kind = 'img' if img else 'link'
-        text = self.inl(depth + 1, r.choice([1, 1, 2, 3]), nolink=True if not img else nolink, nobreak=nobreak, cell=cell)
+        nwords = r.choice([1, 1, 2, 3])
+        if self.reflow and img and self.p(0.85):
+            nwords = 1      # (HtmlRenderer drops line breaks inside alt texts: keep that class rare)
+        text = self.inl(depth + 1 if not (self.reflow and img and nwords == 1) else 3, nwords,
+                        nolink=True if not img else nolink, nobreak=nobreak, cell=cell)
         x = r.random()
         if x < 0.55:
             angle = self.p(0.3)
             dest = self.ch(ADESTS if angle else DESTS)
             if self.reflow:
-                dest = dest.replace('"', 'q')
+                dest = dest.replace('"', 'q').replace('#', '/')
             title = td = None
             if self.p(0.45) and (dest or angle):
                 td = self.ch('"\'(')
@@ -493,6 +506,7 @@ class Gen:
             a['lead'] = r.choice([1, 2])
         if self.delicate and self.p(0.3):
             a['gapws'] = ' ' * r.choice([1, 2, 4, 5, 7])
+        a['mode'] = self.mode
         return ['doc', a, blocks]
 
     def defs(self, labels):
@@ -514,7 +528,7 @@ class Gen:
                 else:
                     title = title.replace('(', '[').replace(')', ']')
             if self.reflow:
-                dest = dest.replace('"', 'q')
+                dest = dest.replace('"', 'q').replace('#', '/')
             a = dict(label=l, dest=dest, angle=angle, title=title, td=td)
             if self.spell:
                 a.update(ind=r.choice([0, 0, 1, 3]), sp=r.choice([' ', ' ', '  ', '\n', '\n  ']),
@@ -539,7 +553,7 @@ class Gen:
         prev = None
         for i in range(n):
             k = self.ch(kinds)
-            if k == 'ic' and prev in ('ul', 'ol') and not self.spell:
+            if k == 'ic' and prev in ('ul', 'ol') and (not self.spell or self.reflow):
                 k = 'p'             # an indented block right after a list belongs to its last item
             b = getattr(self, 'b_' + k)(depth)
             first = i == 0
@@ -548,16 +562,17 @@ class Gen:
                 if self.spell and self.p(0.25):
                     gap = r.choice([0, 0, 2, 3])
                 elif self.normal and self.p(0.2):
-                    gap = r.choice([2, 3]) if self.p(0.5) else \
+                    gap = r.choice([2, 3]) if self.p(0.5 if prev not in ('ul', 'ol') else 0.1) else \
                         (0 if prev in ('h', 'hr', 'fc') and k in ('p', 'h', 'fc', 'hr', 'q', 'tb') else 1)
                 # never put an indented code block (or a container starting with one) directly
                 # under a paragraph-ended block: that would be a continuation line indented >= 4
-                if k == 'ic' or prev == 'html' and not self.spell:
+                if k == 'ic' or prev == 'html' and not self.spell or \
+                        self.reflow and prev in ('html', 'q', 'ul', 'ol'):
                     gap = max(gap, 1)
-                if gap == 0 and self._starts_indented(b):
+                if gap == 0 and (self._starts_indented(b) or not may_follow_directly(b)):
                     gap = 1
             b[1]['gap'] = gap
-            if first and parent == 'li':
+            if first and parent == 'li' or self.normal and prev in ('ul', 'ol'):
                 self._unindent_first(b)
             out.append(b)
             prev = k
@@ -580,7 +595,15 @@ class Gen:
         return self.r.randint(1, depth) if self.spell and depth and self.p(0.3) else 0
 
     def b_p(self, depth):
-        return N('p', self.inl(), ind=self.inds(), lazy=self.lazy(depth))
+        b = N('p', self.inl(), ind=self.inds(), lazy=self.lazy(depth))
+        if b[1]['lazy']:
+            # a lazy line must not look like a block start: it would close the containers while
+            # their later lines stay indented (-> continuation lines indented >= 4, excluded)
+            kids = b[2]
+            for i in range(1, len(kids)):
+                if kids[i - 1][0] == 'br' and (kids[i][0] == 'hi' or kids[i][0] == 't' and kids[i][1]['s'] in ODD):
+                    kids[i] = N('t', s=self.ch(WORDS))
+        return b
 
     def b_h(self, depth):
         r = self.r
@@ -600,7 +623,7 @@ class Gen:
         a = dict(ch=self.ch('=-'), n=r.choice([1, 2, 3, 3, 5, 9]), ind=self.inds(), lazy=0)
         if self.spell:
             a.update(uind=r.choice([0, 0, 1, 3]), trail=r.choice([0, 0, 1, 3]))
-        elif self.normal:
+        elif self.normal and not self._inq:
             a.update(uind=r.choice([0, 0, 0, 1, 3]))
         return ['sh', a, c]
 
@@ -673,7 +696,9 @@ class Gen:
         a = {}
         if self.spell:
             a.update(ind=r.choice([0, 0, 1, 3]), nosp=self.p(0.3), bl=self.ch(['> ', '>', '>  ']))
+        self._inq += 1
         c = self.blocks(depth + 1, self.nchildren(depth), 'q')
+        self._inq -= 1
         if self.spell and self.p(0.04):
             c = []
         return ['q', a, c]
@@ -685,7 +710,7 @@ class Gen:
         if ordered:
             start = r.choice([1, 1, 1, 0, 2, 7, 10, 99, 123456789])
             delim = self.ch('.)')
-            zero = self.p(0.08)
+            zero = self.p(0.08) and start < 1000
         else:
             marker = self.ch('-+*')
         items = []
@@ -698,7 +723,7 @@ class Gen:
             if len(leader) + a['pad'] + a['ind'] > 12:
                 a['ind'] = 0
             c = self.blocks(depth + 1, self.nchildren(depth), 'li')
-            if self.p(0.05) and (self.free or self.normal and not loose and i < n - 1):
+            if self.p(0.015) and (self.free or self.normal and not loose and i < n - 1):
                 c = []                                   # empty item
                 if self.normal:
                     a['pad'] = 1
@@ -707,7 +732,10 @@ class Gen:
                     a['trailsp'] = r.choice([0, 0, 1, 2])
             elif self.spell and self.p(0.05) and c and c[0][0] in ('p', 'fc', 'h'):
                 a['blankfirst'] = True
+            if c and c[0][0] == 'ic':
+                a['pad'] = 1        # '-' + 5.. blanks: the content column is marker + 1
             items.append(['li', a, c])
+        fix_item_indents(items)
         la = dict(loose=loose)
         if self.delicate and self.p(0.5) and n > 1:
             k = r.randrange(n - 1) if self.p(0.7) else n - 1
@@ -730,8 +758,8 @@ class Gen:
         rows = []
         for ri in range(nrow + 1):
             nc = ncol
-            if ri and self.spell and self.p(0.15):
-                nc = max(1, ncol + r.choice([-1, 1]))
+            if ri and self.spell and self.p(0.12):
+                nc = max(1, ncol + r.choice([-1, -1, -1, -1, -1, 1]))
             cells = []
             for _ in range(nc):
                 c = [] if ri and self.p(0.1) else \
@@ -755,6 +783,17 @@ class Gen:
         return ['html', a, []]
 
 
+def may_follow_directly(b):
+    """A list that cannot interrupt a paragraph (ordered and not starting at 1, or first item
+    starting with a blank line) must not follow another block without a blank line: its item
+    continuation lines would become paragraph continuation lines indented >= 4 (excluded class)."""
+    if b[0] in ('ul', 'ol') and b[2]:
+        it = b[2][0]
+        return it[1]['leader'] in ('-', '+', '*', '1.', '1)') and bool(it[2]) and \
+            not it[1].get('blankfirst') and bool(s_blocks(it[2])[0][0].strip())
+    return True
+
+
 def unindent_first(b, spell):
     """first child of a list item: its own indentation would add to the marker padding"""
     a = b[1]
@@ -766,8 +805,11 @@ def unindent_first(b, spell):
             a['cind'] = None if not spell else a.get('cind')
     elif b[0] == 'hr':
         a['line'] = a['line'].lstrip(' ')
+        # '* ***' / '- ---' / '- - ---' would be a thematic break, not a list item
+        a['line'] = a['line'].replace('*', '_').replace('-', '_')
     elif b[0] in ('ul', 'ol') and b[2]:
         b[2][0][1]['ind'] = 0
+        fix_item_indents(b[2])
 
 
 def gen(seed, mode='free', size=None, delicate=None):
@@ -810,8 +852,9 @@ def _candidates(tree):
             fn(_get(t, path[:-1]), path[-1])
             return t
         # 1. delete
-        if not (parent[0] in ('ul', 'ol', 'tr', 'defs') and len(parent[2]) == 1) and \
-                not (parent[0] == 'tb' and path[-1] == 0):
+        if not (parent[0] in ('ul', 'ol', 'tr', 'defs', 'p', 'sh', 'em', 'st', 'del', 'link', 'img')
+                and len(parent[2]) == 1) and not (parent[0] == 'tb' and path[-1] == 0) and \
+                not (k == 'br' and path[-1] in (0, len(parent[2]) - 1)):
             yield edit(lambda p, i: p[2].pop(i))
         # 2. hoist children
         if k == 'q' or k in INL_CONT and k not in ('link', 'img') or \
@@ -833,16 +876,22 @@ def _candidates(tree):
         # 4. content simplification
         if k == 't' and node[1]['s'] not in ('a', 'b'):
             yield edit(lambda p, i: p[2][i][1].__setitem__('s', 'a'))
-        if k in ('fc', 'ic', 'html') and len(node[1]['lines']) > 1:
-            for j in range(len(node[1]['lines'])):
-                yield edit(lambda p, i, j=j: p[2][i][1]['lines'].pop(j))
+        if k in ('fc', 'ic') and len(node[1]['lines']) > 1:
+            ls = node[1]['lines']
+            for j in range(len(ls)):
+                rest = ls[:j] + ls[j + 1:]
+                if rest[0].strip() and rest[-1].strip():
+                    yield edit(lambda p, i, j=j: p[2][i][1]['lines'].pop(j))
         if k in ('link', 'img') and node[1].get('title') is not None:
             yield edit(lambda p, i: p[2][i][1].__setitem__('title', None))
         if k == 'def' and node[1].get('title') is not None:
             yield edit(lambda p, i: p[2][i][1].__setitem__('title', None))
-        if k == 'li' and node[1]['leader'] not in ('-', '1.'):
-            yield edit(lambda p, i: p[2][i][1].__setitem__(
-                'leader', '1.' if p[2][i][1]['leader'][-1] in '.)' else '-'))
+        if k == 'ol' and [it[1]['leader'] for it in node[2]] != \
+                ['%d%s' % (j + 1, node[2][0][1]['leader'][-1]) for j in range(len(node[2]))]:
+            def renumber(p, i):
+                for j, it in enumerate(p[2][i][2]):
+                    it[1]['leader'] = '%d%s' % (j + 1, it[1]['leader'][-1])
+            yield edit(renumber)
     for key, val in CANON['doc'].items():
         if key in tree[1] and tree[1][key] != val:
             t = copy.deepcopy(tree)
@@ -853,25 +902,57 @@ def _candidates(tree):
 def enforce_domain(tree, normal=False):
     """Repair an edited tree so that it stays inside the generated domain; None if it cannot be."""
     ok = [True]
+    reflow = tree[1].get('mode', '').startswith('reflow')
 
-    def fix(node):
+    def fix(node, inq=False):
         kids = node[2]
+        if node[0] in ('p', 'sh', 'em', 'st', 'del', 'link', 'img', 'tc', 'h'):
+            while kids and kids[0][0] == 'br':
+                kids.pop(0)
+            while kids and kids[-1][0] == 'br':
+                kids.pop()
+            for i in range(len(kids) - 1, 0, -1):
+                if kids[i][0] == 'br' and kids[i - 1][0] == 'br':
+                    kids.pop(i)
+            if not kids and node[0] not in ('tc', 'h'):
+                ok[0] = False
+        if node[0] == 'sh' and normal and inq:
+            node[1]['uind'] = 0
+        if node[0] in ('ul', 'ol'):
+            fix_item_indents(kids)
+        if node[0] == 'li' and kids and kids[0][0] == 'ic':
+            node[1]['pad'] = 1
         if node[0] in ('doc', 'q', 'li'):
             for i, b in enumerate(kids):
+                if i and b[1].get('gap', 0) == 0 and reflow and kids[i - 1][0] in ('html', 'q', 'ul', 'ol'):
+                    b[1]['gap'] = 1
+                if i and reflow and b[0] == 'ic' and kids[i - 1][0] in ('ul', 'ol'):
+                    ok[0] = False
                 if i and b[1].get('gap', 0) == 0:
                     ls = s_block(b)
-                    if normal or ls and ls[0][0].startswith('    '):
+                    if normal or ls and ls[0][0].startswith('    ') or not may_follow_directly(b):
                         b[1]['gap'] = 1
-                if normal and i and b[0] == 'ic' and kids[i - 1][0] in ('ul', 'ol'):
-                    ok[0] = False
+                if normal and i and kids[i - 1][0] in ('ul', 'ol'):
+                    if b[0] == 'ic':
+                        ok[0] = False
+                    unindent_first(b, False)    # an indented block after a list joins its last item
             if node[0] == 'li' and kids:
                 unindent_first(kids[0], not normal)
             if node[0] == 'li' and not kids and normal:
                 ok[0] = False
         for c in kids:
-            fix(c)
+            fix(c, inq or node[0] == 'q')
     fix(tree)
     return tree if ok[0] else None
+
+
+def fix_item_indents(items):
+    """a sibling item must be indented less than the content column of the item before it"""
+    for i in range(1, len(items)):
+        pa = items[i - 1][1]
+        width = pa.get('ind', 0) + len(pa['leader']) + (pa.get('pad', 1) if items[i - 1][2] else 1)
+        if items[i][1].get('ind', 0) >= width:
+            items[i][1]['ind'] = width - 1
 
 
 def shrink(tree, fails, budget=600, normal=False):
